@@ -525,13 +525,31 @@ def pairpos2_shadowing(font):
     return n
 
 
-def classify_shape_diff(info, sub, mode, what):
+def original_inert(info, li, mode, feats, text, what):
+    """True when the table concerned (GSUB for glyphs, GPOS for positions) does nothing to this
+    text in the ORIGINAL font under this mode: shaping it with that table's features switched
+    off gives the same result."""
+    tag = "GSUB" if what == "glyphs" else "GPOS"
+    off = dict(feats)
+    for t in info.feats[tag]:
+        off[t] = False
+    fk = lambda d: tuple(sorted(d.items()))
+    a = info.shape(li, mode, fk(feats), feats, text)
+    b = info.shape(li, mode, fk(off), off, text)
+    if what == "glyphs":
+        return [x[:2] for x in a] == [x[:2] for x in b]
+    return a == b
+
+
+def classify_shape_diff(info, sub, mode, what, inert=True):
     """Narrow class of a shaping difference from the shape of original and result: a script /
     language-system record the original selects is gone from the subset (the shaper falls back
-    to DFLT / the default language system), or a shadowing class-pair subtable was removed."""
+    to DFLT / the default language system).  The class is only given when the table does
+    nothing to the text in the original (the record was dropped because it was empty for the
+    kept glyphs); a dropped record that did something stays an unclassified violation."""
     for tag in (("GSUB",) if what == "glyphs" else ("GPOS",)):
         a, b = selected_records(info.font, tag, mode), selected_records(sub, tag, mode)
-        if a and b:
+        if a and b and inert:
             if a[0] and not b[0]:
                 return ":%s-script-record-dropped" % tag
             if a[1] and not b[1]:
@@ -573,6 +591,10 @@ def run_subset(info, kind, req, kw):
     r.in_order = in_order
     r.new_order = new_order
     r.data = buf.getvalue()
+    # the glyph set layout tables are subset to (requested + cmap/MATH/GSUB closure); glyphs kept only
+    # as composite components / COLR layers are retained but are not layout-visible
+    idx = {n: i for i, n in enumerate(in_order)}
+    r.layout_gids = frozenset(idx[g] for g in s.glyphs_gsubed if g in idx)
     return r
 
 
@@ -775,7 +797,7 @@ def check_case(info, kind, req, optname, kw, rec, text_alpha, maxlen):
             for mode in modes:
                 if traced:
                     a, seen_glyphs = info.shape_traced(li, mode, fkey, feats, text)
-                    if not all(g in new_index for g in seen_glyphs):
+                    if not all(g in new_index and info.index[g] in r.layout_gids for g in seen_glyphs):
                         rec.count("no-layout-closure: text uses rules over glyphs that were not requested (not compared)")
                         continue
                     rec.witness("no-layout-closure: text compared after tracing the original's lookups")
@@ -794,10 +816,10 @@ def check_case(info, kind, req, optname, kw, rec, text_alpha, maxlen):
                     continue
                 bn = [(new_order[g] if g < n else "gid%d" % g, cl, xa, ya, xo, yo) for g, cl, xa, ya, xo, yo in b]
                 if [x[:2] for x in a] != [x[:2] for x in bn]:
-                    rec.violation("shape:glyphs" + classify_shape_diff(info, sub, mode, "glyphs") + tag, "%s: text %r (location %s, script/lang %s): original %s, subset %s" % (where, text, info.locs[li], mode, [x[0] for x in a], [x[0] for x in bn]))
+                    rec.violation("shape:glyphs" + classify_shape_diff(info, sub, mode, "glyphs", original_inert(info, li, mode, feats, text, "glyphs")) + tag, "%s: text %r (location %s, script/lang %s): original %s, subset %s" % (where, text, info.locs[li], mode, [x[0] for x in a], [x[0] for x in bn]))
                     continue
                 if compare_pos and a != bn:
-                    rec.violation("shape:positions" + classify_shape_diff(info, sub, mode, "positions") + tag, "%s: text %r (location %s, script/lang %s): original %s, subset %s" % (where, text, info.locs[li], mode, a, bn))
+                    rec.violation("shape:positions" + classify_shape_diff(info, sub, mode, "positions", original_inert(info, li, mode, feats, text, "positions")) + tag, "%s: text %r (location %s, script/lang %s): original %s, subset %s" % (where, text, info.locs[li], mode, a, bn))
                 if not mark_seen and any((x[4] or x[5]) and info.gdef_classes.get(x[0]) == 3 for x in a):
                     mark_seen = True
     rec.count("texts shaped and compared", ntexts)
@@ -1213,11 +1235,13 @@ def option_checks(info, r, sub, sub_order, new_order, okw, where, tag, rec, hb2,
             rec.witness("recalculated head bbox verified")
     if okw.get("recalc_max_context") and "OS/2" in sub:
         exp = ref_max_context(sub)
-        if sub["OS/2"].usMaxContext != exp:
-            cls = "option:recalc-max-context"
-            if sub["OS/2"].usMaxContext > exp and sub["OS/2"].usMaxContext <= ref_max_context(info.font):
-                cls += ":counts-lookups-pruned-afterwards"
-            rec.violation(cls + tag, "%s: usMaxContext %s, longest context of the subset's lookups %s" % (where, sub["OS/2"].usMaxContext, exp))
+        # C07 does not speak of usMaxContext; only an UNDER-estimate can change how a client shapes
+        # retained text (a value above the longest remaining context, e.g. one that still counts
+        # lookups pruned afterwards, is harmless and is not judged)
+        if sub["OS/2"].usMaxContext < exp:
+            rec.violation("option:recalc-max-context:too-small" + tag, "%s: usMaxContext %s, longest context of the subset's lookups %s" % (where, sub["OS/2"].usMaxContext, exp))
+        elif sub["OS/2"].usMaxContext > exp:
+            rec.count("recalculated usMaxContext larger than the longest remaining context (not judged)")
         elif exp >= 2:
             rec.witness("recalculated usMaxContext verified")
     if info.colr_desc and "COLR" not in okw.get("drop_tables", DEFAULT_DROP):
